@@ -9,10 +9,10 @@
    malloc'd name buffer E->field (a new one on every rename).  A pointer is
    dangling iff no live entry carries that identity.
 
-   [cfg] switches the repairs that are proposed but not yet applied
-   (proposed_fixes/C15-11, C15-12); [pinned] is the code as it stands in /repo
-   (which contains the repairs C15-1 .. C15-10 and the depth bound of
-   _GD_ResolveAlias).
+   [cfg] switches the one repair that is proposed but not yet applied
+   (proposed_fixes/C15-13); [pinned] is the code as it stands in /repo (which
+   contains the repairs C15-1 .. C15-12, the depth bound of _GD_ResolveAlias
+   and the re-resolution of unresolved aliases in _GD_UpdateAliases).
    Anchors: src/common.c (find/insert), add.c (_GD_Add, _GD_AddAlias),
    parse.c (_GD_ParseFieldSpec insert path, _GD_ResolveAlias,
    _GD_UpdateAliases), del.c (_GD_Delete), name.c (_GD_Rename,
@@ -26,11 +26,10 @@ Open Scope N_scope.
 
 (* ------------------------------------------------------------------ cfg *)
 Record cfg := mkCfg {
-  fx_derefclear : bool;  (* proposed C15-11: del.c clears derived pointers also on the GD_DEL_DEREF path *)
-  fx_rendup     : bool   (* proposed C15-12: name.c duplicate check must not look through aliases *)
+  fx_delalias : bool   (* proposed C15-13: _GD_Delete re-resolves all aliases, as _GD_PerformRename does *)
 }.
-Definition pinned := mkCfg false false.   (* the code as it stands in /repo *)
-Definition fixed  := mkCfg true true.     (* with the proposed repairs *)
+Definition pinned := mkCfg false.   (* the code as it stands in /repo *)
+Definition fixed  := mkCfg true.    (* with the proposed repair *)
 
 (* ---------------------------------------------------------------- types *)
 Definition T_RAW := 0.  Definition T_LINCOM := 1.  Definition T_LINTERP := 2.
@@ -189,7 +188,8 @@ Fixpoint resolve (fuel : nat) (depth : nat) (l : list entry) (base id : N) : lis
 Definition ua_step (cur : list entry) (id : N) : list entry :=
   match by_id cur id with
   | Some e =>
-      if is_alias e && negb (e_dir e) then fst (resolve (S (S (length cur))) 0 cur id id) else cur
+      if is_alias e && (match e_dist e with None => true | Some _ => false end)
+      then fst (resolve (S (S (length cur))) 0 cur id id) else cur
   | None => cur
   end.
 
@@ -588,13 +588,12 @@ Definition clear_derived (d : entry) (j : entry) : entry :=
                  | Some x => if x =? e_id d then (fst p, None) else p
                  | None => p end) (e_ins j)).
 
-Definition clear_one (c : cfg) (deref : bool) (dels : list entry) (j : entry) : entry :=
+Definition clear_one (deref : bool) (dels : list entry) (j : entry) : entry :=
   fold_left (fun (j : entry) d =>
     if is_constlike d && deref then
-      let j1 := set_scs j (map (fun o => match o with
+      clear_derived d (set_scs j (map (fun o => match o with
                                | Some cd => if name_eqb cd (e_name d) then None else Some cd
-                               | None => None end) (e_scs j)) in
-      if fx_derefclear c then clear_derived d j1 else j1
+                               | None => None end) (e_scs j)))
     else clear_derived d j) dels j.
 
 (* the metafield removal loop of del.c: walk D->entry and the (sorted) doomed
@@ -664,18 +663,19 @@ Definition op_del (c : cfg) (s : state) (nm : name) (flags : N) : state * res :=
       let '(rf', fr') := del_refs l1 E (s_ref s) (s_fref s) in
       let s2 := set_fref (set_ref (set_ents s l1) rf') fr' in
       (* clear clients and derived fields *)
-      let l3 := map (clear_one c f_deref dels) (s_ents s2) in
+      let l3 := map (clear_one f_deref dels) (s_ents s2) in
+      let fin (l : list entry) := if fx_delalias c then update_aliases true l else l in
       if e_meta E then
         match by_oid l3 (e_par E) with
         | None => (s, RCrash K_NULLPARENT)
         | Some P =>
             let l4 := upd_id l3 (e_id P) (fun p => set_fl (set_kids p (swap_remove (e_kids p) (e_id E))) []) in
-            (set_ents s2 (remove_id l4 (e_id E)), RInt E_OK)
+            (set_ents s2 (fin (remove_id l4 (e_id E))), RInt E_OK)
         end
       else
         let sorted_kids := map e_id (resort e_name kids) in
         let l4 := remove_metas sorted_kids l3 in
-        (inval_top (set_ents s2 (remove_id l4 (e_id E))), RInt E_OK)
+        (inval_top (set_ents s2 (fin (remove_id l4 (e_id E)))), RInt E_OK)
   end.
 
 (* ---------------------------------------------------------------- rename *)
@@ -715,7 +715,7 @@ Definition update_inputs (meta : bool) (rty : N) (old new : name) (flags : N) (e
     set_ins e2 (map (fun p : name * option N => (rename_code meta old new true (fst p), snd p)) (e_ins e2))
   else e2.
 
-Definition op_ren (c : cfg) (s : state) (nm new : name) (flags : N) : state * res :=
+Definition op_ren (s : state) (nm new : name) (flags : N) : state * res :=
   let l := s_ents s in
   match find_nd l nm with
   | None => (s, RInt E_BAD_CODE)
@@ -728,13 +728,11 @@ Definition op_ren (c : cfg) (s : state) (nm new : name) (flags : N) : state * re
       match pname with
       | None => (s, RCrash K_NULLPARENT)
       | Some full =>
-          match (if fx_rendup c then
-                   match find_nd l full with
-                   | Some Q0 => if is_alias Q0 && (match e_dist Q0 with Some d => d =? e_id E | None => false end)
-                                then Some E else Some Q0
-                   | None => None
-                   end
-                 else find_da l full) with
+          match (match find_nd l full with
+                 | Some Q0 => if is_alias Q0 && (match e_dist Q0 with Some d => d =? e_id E | None => false end)
+                              then Some E else Some Q0
+                 | None => None
+                 end) with
           | Some Q => if e_id Q =? e_id E then (s, RInt E_OK) else (s, RInt E_DUPLICATE)
           | None =>
               let rty := if is_alias E then match by_oid l (e_dist E) with Some t => e_ty t | None => e_ty E end
@@ -860,7 +858,7 @@ Definition step (c : cfg) (s : state) (o : op) : state * res :=
       | OAdd viaspec parent nm ty frag hid ins scs v => op_add s viaspec parent nm ty frag hid ins scs v
       | OAlias parent nm tgt frag => op_alias s parent nm tgt frag
       | ODel nm flags => op_del c s nm flags
-      | ORen nm new flags => op_ren c s nm new flags
+      | ORen nm new flags => op_ren s nm new flags
       | OMove nm frag => op_move s nm frag
       | OHide nm h => op_hide s nm h
       | _ => (s, RUnmodelled)
